@@ -86,6 +86,66 @@ def gen_big_case(rng, N, rounds=2, workers=None, pswitch=85, snapmax=6):
                            extra=({"snapmax": snapmax} if snapmax else None), maxsteps=40000000)
 
 
+def gen_life_case(rng, counts=None, workers=None, pswitch=None):
+    """object lifecycle: barrier b lives through several incarnations.  Incarnation i: threads 0..N_i-1 do r_i rounds
+    on b; after the last of them the thread that got the serial value (`ifret 1`) destroys b and re-initialises it
+    for N_(i+1) (<, =, > N_i; attr == NULL or a myth_barrierattr_t) - typically while the other participants of
+    that round are released (in a run queue) but have not resumed yet: with one worker always, because the serial
+    thread keeps the worker until it blocks.  Then ALL threads meet at the gate barrier g (never re-initialised),
+    so nobody enters the new incarnation before it exists.  Destroy right after one's own wait returned is what
+    POSIX allows for pthread_barrier_destroy."""
+    if counts is None:
+        n0 = rng.rng(2, 7)
+        counts = [n0]
+        for _ in range(rng.rng(1, 3)):
+            prev = counts[-1]
+            kind = rng.below(4)
+            nxt = rng.rng(1, prev - 1) if kind <= 1 and prev > 1 else prev if kind == 2 else rng.rng(prev + 1, prev + 3)
+            counts.append(nxt)
+    incs = [(n, rng.rng(1, 3), rng.below(2)) for n in counts]
+    M = max(counts)
+    workers = workers or rng.choice([1, 1, 2, 3, 4])
+    pswitch = pswitch or rng.choice([20, 35, 60, 85])
+    threads = {}
+    for p in range(M):
+        ops = ["create %d" % q for q in range(1, M)] if p == 0 else []
+        for i, (n, rounds, _) in enumerate(incs):
+            if p < n:
+                ops += ["bwait b"] * rounds
+                if i + 1 < len(incs):
+                    ops.append("ifret 1 bdestroy b")
+                    ops.append("ifret 1 binit b %d%s" % (incs[i + 1][0], " attr" if incs[i + 1][2] else ""))
+            if i + 1 < len(incs):
+                ops.append("bwait g")
+        if p == 0:
+            ops += ["join %d" % q for q in range(1, M)]
+        threads[p] = ops
+    txt = trace.case_text(workers, rng.rng(1, 1 << 30), ["b barrier %d" % counts[0], "g barrier %d" % M], threads,
+                          pswitch=pswitch)
+    return "# c06life b g %s\n" % " ".join("%d:%d:%d" % t for t in incs) + txt
+
+
+def life_stats(case, events):
+    """per re-initialisation of a lifecycle program: was it done while a released participant of the old round had
+    not returned yet?  -> list of (relation '<' '=' '>', attr, pending returns at the time of binit)"""
+    life = lifecycles(case)
+    if not life:
+        return []
+    res = []
+    for name, (gate, incs) in life.items():
+        open_wait, k = set(), 0
+        for e in events:
+            if e.kind == "C" and e.words[0] == "bwait" and e.words[1] == name:
+                open_wait.add(e.actor)
+            elif e.kind == "R" and e.actor in open_wait:
+                open_wait.discard(e.actor)
+            elif e.kind == "C" and e.words[0] == "binit" and e.words[1] == name and k + 1 < len(incs):
+                a, b = incs[k][0], incs[k + 1][0]
+                res.append(("<" if b < a else "=" if b == a else ">", incs[k + 1][2], len(open_wait)))
+                k += 1
+    return res
+
+
 def gen_case(rng, N=None, rounds=None, workers=None, pswitch=None, racer="maybe"):
     N = N or rng.choice(N_SMALL_WEIGHTED)
     rounds = rounds or rng.rng(1, 6)
@@ -102,16 +162,51 @@ def gen_case(rng, N=None, rounds=None, workers=None, pswitch=None, racer="maybe"
 # projection of a lib_interp trace onto Abs(barrier)
 # --------------------------------------------------------------------------------------------------
 
-def barriers_of(case):
-    """[(name, N, participants sorted by tag)]"""
+def lifecycles(case):
+    """{barrier name: (gate name, [(N_i, rounds_i, attr_i)])} from the header lines `# c06life b g 3:2:0 2:1:1 ..`
+    of the object-lifecycle programs (gen_life_case): incarnation i of b has N_i participants (threads 0..N_i-1)
+    and rounds_i rounds; it was created by myth_barrier_init with attr != NULL iff attr_i"""
+    res = {}
+    for line in case.split("\n"):
+        w = line.split()
+        if len(w) >= 5 and w[0] == "#" and w[1] == "c06life":
+            res[w[2]] = (w[3], [tuple(int(x) for x in t.split(":")) for t in w[4:]])
+    return res
+
+
+def instances(case):
+    """one entry per barrier incarnation: {name, N, parts, inc, incmap}.  inc is None for a barrier that is never
+    re-initialised; else incmap[p][j] = the incarnation the j-th `bwait name` of thread p belongs to (= the number
+    of gate waits before it in p's program)"""
     objs, threads, scripts, _ = trace.parse_case(case)
+    life = lifecycles(case)
     res = []
     for n, (k, par) in objs.items():
         if k != "barrier":
             continue
-        parts = sorted(t for t, ops in threads.items() if any(o[0] == "bwait" and o[1] == n for o in ops))
-        res.append((n, par[0] if par else 0, parts))
+        if n in life:
+            gate, incs = life[n]
+            incmap = {}
+            for p, ops in threads.items():
+                g, l = 0, []
+                for o in ops:
+                    if o[0] == "bwait" and o[1] == gate:
+                        g += 1
+                    elif o[0] == "bwait" and o[1] == n:
+                        l.append(g)
+                incmap[p] = l
+            for i, inc in enumerate(incs):
+                res.append({"name": n, "N": inc[0], "parts": sorted(p for p in incmap if i in incmap[p]),
+                            "inc": i, "incmap": incmap})
+        else:
+            parts = sorted(t for t, ops in threads.items() if any(o[0] == "bwait" and o[1] == n for o in ops))
+            res.append({"name": n, "N": par[0] if par else 0, "parts": parts, "inc": None, "incmap": None})
     return res
+
+
+def barriers_of(case):
+    """[(name, N, participants sorted by tag)], one per barrier incarnation"""
+    return [(d["name"], d["N"], d["parts"]) for d in instances(case)]
 
 
 _STK = re.compile(r"stk=\[([^\]]*)\]")
@@ -121,10 +216,14 @@ REPLAY_LIMIT_N = 3000        # above this N only a prefix of the trace is replay
 REPLAY_LIMIT_LINES = 40000   # (unary nats make a model step O(N)); the oracle always judges the whole trace
 
 
-def c06_block(name, N, parts, events):
-    """driver input for one barrier object: (lines, source event per line).  Thread tags are renamed
-    to participant indices 0..len(parts)-1 (the model instance of the theorems is `init_state N N`)."""
+def c06_block(name, N, parts, events, inc=None, incmap=None):
+    """driver input for one barrier object (one incarnation of it): (lines, source event per line).  Thread tags
+    are renamed to participant indices 0..len(parts)-1 (the model instance of the theorems is `init_state N N`).
+    With inc / incmap only the calls of that incarnation are projected: a call belongs to the incarnation its
+    thread's program says, all POINTs and the return of the thread belong to its open call - so the returns of
+    released participants that resume AFTER the re-initialisation still belong to the old incarnation."""
     idx = {t: i for i, t in enumerate(parts)}
+    ncall, cur = {}, {}
 
     def tg(s):           # 't7' -> participant index as text ('?' if not a participant)
         if s and s[0] == "t" and s[1:].isdigit():
@@ -136,9 +235,18 @@ def c06_block(name, N, parts, events):
     for e in events:
         if e.kind == "C":
             if e.words[0] == "bwait" and e.words[1] == name:
+                if incmap is not None:
+                    j = ncall.get(e.actor, 0)
+                    ncall[e.actor] = j + 1
+                    l = incmap.get(e.actor, [])
+                    cur[e.actor] = l[j] if j < len(l) else -1
+                    if cur[e.actor] != inc:
+                        continue
                 lines.append("call %s wait" % idx.get(e.actor, "?"))
                 src.append(e)
                 open_call[e.actor] = True
+        elif incmap is not None and cur.get(e.actor) != inc:
+            continue
         elif e.kind == "R":
             if open_call.get(e.actor):
                 lines.append("ret %s %s" % (idx.get(e.actor, "?"), e.words[1]))
@@ -181,28 +289,44 @@ def oracle(case, r):
         v = re.sub(r"blocked=\[([^\]]{60})[^\]]*\]", r"blocked=[\1...]", v)
         incomplete = "run did not complete: verdict %s rc %s %s" % (v, r["rc"], r["out"][-200:].strip())
     _, threads, _, _ = trace.parse_case(case)
-    for name, N, parts in barriers_of(case):
+    for inst in instances(case):
+        name, N, parts, inc, incmap = inst["name"], inst["N"], inst["parts"], inst["inc"], inst["incmap"]
         if len(parts) != N:
             continue                          # not a program of the class the property quantifies over
-        calls = {p: [] for p in parts}      # trace positions of the k-th call / return
+        if inc is not None:
+            name_txt = "%s (incarnation %d, initialised for %d)" % (name, inc, N)
+        else:
+            name_txt = name
+        calls = {p: [] for p in parts}      # trace positions of the k-th call / return (of this incarnation)
         rets = {p: [] for p in parts}
         vals = {p: [] for p in parts}
-        pend = {}
+        pend, ncall, mine = {}, {}, {}
         gets = []                            # (thread, rounds completed, variable, value)
         for pos, e in enumerate(r["events"]):
             if e.kind == "C":
                 pend[e.actor] = e.words
-                if e.words[0] == "bwait" and e.words[1] == name and e.actor in calls:
-                    calls[e.actor].append(pos)
+                if e.words[0] == "bwait" and e.words[1] == name:
+                    # a call belongs to the incarnation the thread's program says; so does its return, even when
+                    # the thread resumes only after the object has been destroyed and re-initialised
+                    j = ncall.get(e.actor, 0)
+                    ncall[e.actor] = j + 1
+                    l = incmap.get(e.actor, []) if incmap is not None else None
+                    mine[e.actor] = (incmap is None) or (j < len(l) and l[j] == inc)
+                    if mine[e.actor] and e.actor in calls:
+                        calls[e.actor].append(pos)
             elif e.kind == "R" and e.actor in pend:
                 w = pend.pop(e.actor)
-                if w[0] == "bwait" and w[1] == name and e.actor in rets:
+                if w[0] == "bwait" and w[1] == name and e.actor in rets and mine.get(e.actor):
                     rets[e.actor].append(pos)
                     vals[e.actor].append(int(e.words[1]))
                 elif w[0] == "get" and re.fullmatch(r"c\d+", w[1]) and e.actor in rets:
                     gets.append((e.actor, len(rets[e.actor]), int(w[1][1:]), int(e.words[1])))
-        want = {p: sum(1 for o in threads[p] if o[0] == "bwait" and o[1] == name) for p in parts}
+        if incmap is not None:
+            want = {p: sum(1 for x in incmap.get(p, []) if x == inc) for p in parts}
+        else:
+            want = {p: sum(1 for o in threads[p] if o[0] == "bwait" and o[1] == name) for p in parts}
         rounds = min(want.values()) if want else 0
+        name = name_txt
         # (1) nobody returns from its k-th wait before all N have entered their k-th wait - judged on every
         #     return that happened, also in runs that did not complete
         INF = len(r["events"]) + 1
@@ -344,8 +468,8 @@ def run_cases(ctx, exe, drv, cases, tag="c", timeout=60):
         r = trace.run_case(exe, c, wd, "%s%04d" % (tag, i), timeout=timeout)
         r["case"] = c
         r["blocks"] = []
-        for (name, N, parts) in barriers_of(c):
-            b = c06_block(name, N, parts, r["events"])
+        for d in instances(c):
+            b = c06_block(d["name"], d["N"], d["parts"], r["events"], inc=d["inc"], incmap=d["incmap"])
             r["blocks"].append(b)
             blocks.append(b)
             owners.append(r)
@@ -467,7 +591,12 @@ def run(ctx):
     clean_runs(ctx)
     corpus = load_corpus()
     n_grid, n_racer = (400, 200) if not ctx.thorough else (7000, 3000)
-    cases = corpus + gen_big_cases(ctx) + gen_cases(ctx, n_grid, n_racer)
+    # object lifecycle: destroy + re-init (other count, attr or NULL) by the serial thread while released
+    # participants of the old round have not resumed
+    n_life = 90 if not ctx.thorough else 1500
+    life_cases = [gen_life_case(ctx.rng, counts=c, workers=1) for c in ([7, 1], [5, 2, 6], [3, 3], [2, 1, 4])]
+    life_cases += [gen_life_case(ctx.rng) for _ in range(n_life)]
+    cases = corpus + gen_big_cases(ctx) + life_cases + gen_cases(ctx, n_grid, n_racer)
     results = []
     CH = 200
     hist, dist, verdicts = {}, {}, {}
@@ -476,6 +605,7 @@ def run(ctx):
     racer_by_n, runs_by_n, capable_by_n = {}, {}, {}
     resumed = [0, 0]           # returned 0 on another worker than the one it blocked on / on the same
     leaders = [0, 0]           # consecutive rounds with a different / the same last arriver
+    life = {}                  # re-initialisations: "<|=|> attr=0|1 pending|quiet" -> count
     for i in range(0, len(cases), CH):
       chunk = run_cases(ctx, exe, drv, cases[i:i + CH], tag="b%02d_" % (i // CH), timeout=600)
       results += chunk
@@ -490,6 +620,9 @@ def run(ctx):
             rounds_ = min([sum(1 for o in thr_[p] if o[0] == "bwait") for p in bparts] or [0])
             if int(par_.get("workers", "1")) >= 2 and rounds_ >= 2:      # a racer needs a thief and a next round
                 capable_by_n[bN] = capable_by_n.get(bN, 0) + 1
+        for (rel, at, pend) in life_stats(r["case"], r["events"]):
+            k = "N2%sN attr=%d %s" % (rel, at, "released-not-resumed" if pend else "all-resumed")
+            life[k] = life.get(k, 0) + 1
         d, sm = resumed_elsewhere(r["events"])
         resumed[0] += d
         resumed[1] += sm
@@ -536,16 +669,23 @@ def run(ctx):
         missing.append("resumed.on.other.worker")
     if leaders[0] == 0:
         missing.append("last.arriver.changed")
+    # re-initialisation with a smaller / equal / larger count, with attr and with NULL, each at least once while a
+    # released participant of the old round had not resumed
+    for want in ("N2<N", "N2=N", "N2>N", "attr=0", "attr=1"):
+        if not any(want in k and k.endswith("released-not-resumed") and v for k, v in life.items()):
+            missing.append("reinit[%s].while.released.not.resumed" % want)
     ctx.cov["correspondence"] = {
         "cases": len(results), "corpus_cases": len(corpus), "model_steps_replayed": events_total,
         "disagreements": len(model_fail), "oracle_failures": len(oracle_fail), "search_runs": searched,
         "input_distribution": dist, "verdicts": verdicts, "point_histogram": hist,
         "points_required": POINTS + PATTERNS + ["racer.ahead[N] for N in %s" % (gate_ns,), "resumed.on.other.worker",
-                                                "last.arriver.changed"],
+                                                "last.arriver.changed",
+                                                "reinit[N2<N|N2=N|N2>N|attr=0|attr=1].while.released.not.resumed"],
         "points_missing": missing,
         "runs_by_N": {str(k): runs_by_n[k] for k in sorted(runs_by_n)},
         "racer_capable_runs_by_N": {str(k): capable_by_n[k] for k in sorted(capable_by_n)},
         "racer_ahead_by_N": {str(k): racer_by_n[k] for k in sorted(racer_by_n)},
+        "reinitialisations": life,
         "returns_of_0_resumed_on_other_worker": resumed[0], "returns_of_0_resumed_on_same_worker": resumed[1],
         "rounds_last_arriver_differs_from_previous_round": leaders[0], "rounds_last_arriver_same_as_previous": leaders[1]}
     ctx.cov["evaluations"] = events_total
@@ -581,7 +721,9 @@ def run(ctx):
     if not ctx.violations:
         clean_runs(ctx, mine=True)
     return ctx.finish(assumptions=[
-        "program class: exactly N participants, each calling wait repeatedly on a barrier initialised for N (N >= 1)",
+        "program class: exactly N participants, each calling wait repeatedly on a barrier initialised for N (N >= 1); "
+        "destroy / re-init only by a participant whose own wait has returned and before anybody enters the object "
+        "again (each incarnation is one instance of the model)",
         "sequential consistency at the granularity of MYTH_VERIF_POINTs (one step = one shared access)",
         "a thread pushed to a run queue eventually runs; a saved context is resumed only through a run-queue push",
         "no 64-bit overflow of barrier->state (it never exceeds N)"])
